@@ -199,6 +199,13 @@ pub fn run(ctx: &Ctx, rep: &mut Report) {
                     jobs.push(Job { seed: si, entry, dumped: Some((cut..tpos.len()).collect()), attr: g1.join(", "), item: Some(format!("#[derive_ex({}, dump)] {}", g2.join(", "), s.item)), frag: false });
                 }
             }
+            // a per-trait dump on the first / last trait AND the shared dump: every trait is dumped (once)
+            if !tpos.is_empty() && tpos.len() == ps.len() {
+                for k in [0, tpos.len() - 1] {
+                    let attr: Vec<String> = ps.iter().enumerate().map(|(i, p)| if tpos[k] == i { with_dump(&p.1) } else { p.1.clone() }).collect();
+                    jobs.push(Job { seed: si, entry, dumped: None, attr: format!("{}, dump", attr.join(", ")), item: None, frag: false });
+                }
+            }
             let mut sets: Vec<Vec<usize>> = (0..tpos.len()).map(|k| vec![k]).collect();
             if tpos.len() >= 3 {
                 sets.push(vec![0, tpos.len() - 1]);
